@@ -633,7 +633,17 @@ func (w *c02World) storeSnap() string {
 			out = append(out, w.names[id]+":undecodable")
 			continue
 		}
-		out = append(out, w.names[id]+":"+c02Num(ss.IPv4)+"/"+c02Num(ss.IPv6Address)+"/"+c02Pfx(ss.IPv6Prefix))
+		// the image's allocator context: handleAAAResponse replays a pending DHCPv4 and a pending DHCPv6 packet on
+		// two goroutines, so the image written by the DHCPv6 side may or may not carry the address the DHCPv4
+		// side resolved; after a restart that decides between "reserve this address" and "allocate afresh"
+		// (and the other way round for the IA_NA address / prefix in the image the DHCPv4 side writes)
+		var ctx4, ctx6 net.IP
+		var ctxd *net.IPNet
+		if ss.AllocCtx != nil {
+			ctx4, ctx6, ctxd = ss.AllocCtx.IPv4Address, ss.AllocCtx.IPv6Address, ss.AllocCtx.IPv6Prefix
+		}
+		out = append(out, w.names[id]+":"+c02Num(ss.IPv4)+"/"+c02Num(ss.IPv6Address)+"/"+c02Pfx(ss.IPv6Prefix)+
+			"@"+c02Num(ctx4)+"/"+c02Num(ctx6)+"/"+c02Pfx(ctxd))
 	}
 	sort.Strings(out)
 	return "S[" + strings.Join(out, ",") + "]"
